@@ -10,6 +10,8 @@
 //   - client/visitor/sudp.go worker: the same (what the visitor writes on its connection)
 //   - client/proxy/udp.go, client/proxy/sudp.go: how the work-connection reader decodes: "ReadMsgInto"
 //     (type-blind: any message becomes a UDPPacket) or "ReadMsg" (typed)
+//   - server/proxy/udp.go Run: which named function literals send on pxy.checkCloseCh — expected ["workConnReaderFn"]
+//   - pkg/config/legacy/conversion.go: every assignment to a field UDPPacketSize — expected the plain copies
 // Anything not recognised sets gen_c03_unknown, which the reflective obligations in Properties/C03.v trip over.
 package main
 
@@ -193,6 +195,64 @@ func run() ([]byte, error) {
 		unknown = true
 	}
 
+	// ---- who may notify checkCloseCh (one failure of a work connection must produce one notification): the
+	// named function literals of UDPProxy.Run that contain a send on pxy.checkCloseCh
+	var notifiers []string
+	if fd := funcDecl(g, "Run"); fd != nil {
+		ast.Inspect(fd.Body, func(n ast.Node) bool {
+			as, ok := n.(*ast.AssignStmt)
+			if !ok || len(as.Lhs) != 1 || len(as.Rhs) != 1 {
+				return true
+			}
+			id, ok1 := as.Lhs[0].(*ast.Ident)
+			fl, ok2 := as.Rhs[0].(*ast.FuncLit)
+			if !ok1 || !ok2 {
+				return true
+			}
+			ast.Inspect(fl.Body, func(m ast.Node) bool {
+				if s, ok := m.(*ast.SendStmt); ok {
+					if sel, ok := s.Chan.(*ast.SelectorExpr); ok && sel.Sel.Name == "checkCloseCh" {
+						notifiers = append(notifiers, id.Name)
+					}
+				}
+				return true
+			})
+			return false
+		})
+		// sends outside the named literals (anonymous goroutines, Run itself)
+		total := 0
+		ast.Inspect(fd.Body, func(m ast.Node) bool {
+			if s, ok := m.(*ast.SendStmt); ok {
+				if sel, ok := s.Chan.(*ast.SelectorExpr); ok && sel.Sel.Name == "checkCloseCh" {
+					total++
+				}
+			}
+			return true
+		})
+		for i := len(notifiers); i < total; i++ {
+			notifiers = append(notifiers, "?")
+		}
+	} else {
+		unknown = true
+	}
+
+	// ---- the configured packet size reaches the v1 configuration unchanged from a legacy ini file
+	var sizeConv []string
+	if lc, err := parse("pkg/config/legacy/conversion.go"); err != nil {
+		return nil, err
+	} else {
+		ast.Inspect(lc, func(n ast.Node) bool {
+			as, ok := n.(*ast.AssignStmt)
+			if !ok || len(as.Lhs) != 1 || len(as.Rhs) != 1 {
+				return true
+			}
+			if sel, ok := as.Lhs[0].(*ast.SelectorExpr); ok && sel.Sel.Name == "UDPPacketSize" {
+				sizeConv = append(sizeConv, show(fset, as.Lhs[0])+" = "+show(fset, as.Rhs[0]))
+			}
+			return true
+		})
+	}
+
 	// ---- how the client readers decode
 	reader := func(rel string) (string, error) {
 		h, err := parse(rel)
@@ -235,6 +295,8 @@ func run() ([]byte, error) {
 	fmt.Fprintf(&b, "Definition gen_c03_srv_udp_writes : list string := %s.\n", coqList(srvWrites))
 	fmt.Fprintf(&b, "Definition gen_c03_srv_sendch_elem : string := %s.\n", tx.CoqString(sendChType))
 	fmt.Fprintf(&b, "Definition gen_c03_visitor_writes : list string := %s.\n", coqList(visWrites))
+	fmt.Fprintf(&b, "Definition gen_c03_checkclose_notifiers : list string := %s.\n", coqList(notifiers))
+	fmt.Fprintf(&b, "Definition gen_c03_legacy_packet_size : list string := %s.\n", coqList(sizeConv))
 	fmt.Fprintf(&b, "Definition gen_c03_cli_udp_reader : string := %s.\n", tx.CoqString(cliUDP))
 	fmt.Fprintf(&b, "Definition gen_c03_cli_sudp_reader : string := %s.\n", tx.CoqString(cliSUDP))
 	return b.Bytes(), nil
